@@ -152,7 +152,7 @@ Proof. destruct o; vm_compute; reflexivity. Qed.
 Lemma lk_tp_dunder o : mlookup (dunder o) tape_methods = Some (opname o, false, 2%nat).
 Proof. destruct o; vm_compute; reflexivity. Qed.
 Lemma lk_tp_rdunder o : mlookup (rdunder o) tape_methods
-  = match o with IAdd | IMul | IXor => Some (opname o, false, 2%nat) | _ => None end.
+  = match o with IAdd => Some (opname o, false, 2%nat) | _ => None end.
 Proof. destruct o; vm_compute; reflexivity. Qed.
 Lemma lk_mv_un : forall m op, In (m, op) [("__neg__", "neg"); ("__invert__", "reverse"); ("inv", "inv"); ("normsq", "normsq");
     ("sqrt", "sqrt"); ("polarity", "polarity"); ("unpolarity", "unpolarity"); ("hodge", "hodge"); ("unhodge", "unhodge")] ->
@@ -160,6 +160,13 @@ Lemma lk_mv_un : forall m op, In (m, op) [("__neg__", "neg"); ("__invert__", "re
 Proof. intros m op H. cbn in H. repeat (destruct H as [H|H]; [inversion H; subst; vm_compute; split; reflexivity|]). contradiction. Qed.
 Lemma lk_gp : mlookup "gp" mv_methods = Some ("gp", false, 2%nat) /\ mlookup "gp" tape_methods = Some ("gp", false, 2%nat).
 Proof. vm_compute. split; reflexivity. Qed.
+Lemma lk_op : mlookup "op" tape_methods = Some ("op", false, 2%nat).
+Proof. vm_compute. reflexivity. Qed.
+Lemma lk_tp_add : mlookup "__add__" tape_methods = Some ("add", false, 2%nat).
+Proof. vm_compute. reflexivity. Qed.
+(* the members MultiVector defines with swapped operands and the recorder writes out as methods *)
+Lemma lk_mv_special m : In m ["__rsub__"; "__rmul__"; "__rxor__"] -> exists op ar, mlookup m mv_methods = Some (op, true, ar).
+Proof. intros H. cbn in H. repeat (destruct H as [H|H]; [subst m; vm_compute; eauto|]). contradiction. Qed.
 
 
 (* ================= 0c. the supported fragment, statically ================= *)
@@ -480,7 +487,7 @@ Section Abstract.
     destruct (mlookup m tape_methods) as [[[op sw] [|[|ar]]]|]; try discriminate.
     destruct (rr_unary op ks t ks' t' q Hk Hp H) as [q' [E [S D]]]. exists q'. auto.
   Qed.
-  Lemma rr_meth2 m : RR2 (rec_meth2 opd tape_methods m).
+  Lemma rr_meth2tab m : RR2 (rec_meth2tab opd tape_methods m).
   Proof.
     intros r1 r1' r2 r2' q Hr1 Hr2 H.
     destruct r1 as [c|ks t], r1' as [c'|ks' t']; cbn in Hr1; try contradiction; cbn in H; try discriminate.
@@ -488,6 +495,35 @@ Section Abstract.
     destruct (mlookup m tape_methods) as [[[op sw] [|[|[|ar]]]]|]; try discriminate.
     destruct (rr_binary op ks t ks' t' r2 r2' q Hk Hp Hr2 H) as [q' [E [S D]]]. exists q'.
     split; [exact E|]. split; [exact S|]. intros. apply D. split; assumption.
+  Qed.
+  Lemma RRs_shape (r r' : rv) : RRs r r' -> is_rec r = is_rec r'.
+  Proof. destruct r, r'; cbn; tauto. Qed.
+  Lemma rr_special m : RR2 (rec_special opd tape_methods m).
+  Proof.
+    intros r1 r1' r2 r2' q Hr1 Hr2 H. unfold rec_special in *.
+    destruct (String.eqb m "__rsub__").
+    - inv_bindn H as n Hn. destruct (rr_meth1 "__neg__" r1 r1' n Hr1 Hn) as [n' [E1 [S1 D1]]]. rewrite E1. cbn [bind].
+      destruct r2 as [c|k2 t2], r2' as [c'|k2' t2']; cbn in Hr2; try contradiction.
+      + destruct (rr_meth2tab "__radd__" n n' (RNum c) (RNum c') q S1 Hr2 H) as [q' [E [S D]]].
+        exists q'. split; [exact E|]. split; [exact S|]. intros. apply D; [apply D1|]; assumption.
+      + destruct (rr_meth2tab "__add__" (RRec k2 t2) (RRec k2' t2') n n' q Hr2 S1 H) as [q' [E [S D]]].
+        exists q'. split; [exact E|]. split; [exact S|]. intros. apply D; [|apply D1]; assumption.
+    - destruct (String.eqb m "__rmul__").
+      + destruct r2 as [c|k2 t2], r2' as [c'|k2' t2']; cbn in Hr2; try contradiction.
+        * destruct (rr_meth2tab "gp" r1 r1' (RNum c) (RNum c') q Hr1 Hr2 H) as [q' [E [S D]]]. exists q'. auto.
+        * destruct (rr_meth2tab "gp" (RRec k2 t2) (RRec k2' t2') r1 r1' q Hr2 Hr1 H) as [q' [E [S D]]]. exists q'. auto.
+      + destruct (String.eqb m "__rxor__"); [|discriminate].
+        destruct r2 as [c|k2 t2], r2' as [c'|k2' t2']; cbn in Hr2; try contradiction.
+        * destruct (rr_meth2tab "op" r1 r1' (RNum c) (RNum c') q Hr1 Hr2 H) as [q' [E [S D]]]. exists q'. auto.
+        * destruct (rr_meth2tab "op" (RRec k2 t2) (RRec k2' t2') r1 r1' q Hr2 Hr1 H) as [q' [E [S D]]]. exists q'. auto.
+  Qed.
+  Lemma rr_meth2 m : RR2 (rec_meth2 opd tape_methods m).
+  Proof.
+    intros r1 r1' r2 r2' q Hr1 Hr2 H.
+    destruct r1 as [c|ks t], r1' as [c'|ks' t']; cbn in Hr1; try contradiction; cbn [rec_meth2] in H |- *; try discriminate.
+    destruct (mlookup m tape_methods).
+    - exact (rr_meth2tab m (RRec ks t) (RRec ks' t') r2 r2' q Hr1 Hr2 H).
+    - exact (rr_special m (RRec ks t) (RRec ks' t') r2 r2' q Hr1 Hr2 H).
   Qed.
   Lemma rr_prefix u : RR1 (rec_prefix O opd tape_methods u).
   Proof.
@@ -503,14 +539,9 @@ Section Abstract.
       + subst b'. cbn in *.
         destruct o; try discriminate; inversion H; subst;
           (eexists; split; [reflexivity|]; split; [reflexivity | intros; exact I]).
-      + cbn [rec_infix] in H |- *. destruct (mlookup (rdunder o) tape_methods) as [x|].
-        * destruct (rr_meth2 (rdunder o) (RRec ks2 t2) (RRec ks2' t2') (RNum a) (RNum a) q Hr2 eq_refl H) as [q' [E [S D]]].
-          exists q'. split; [exact E|]. split; [exact S|]. intros. apply D; [assumption | exact I].
-        * destruct o; try discriminate. inv_bind H.
-          destruct (rr_meth1 "__neg__" (RRec ks2 t2) (RRec ks2' t2') x Hr2 Hx) as [x' [E1 [S1 D1]]].
-          rewrite E1. cbn. destruct (mlookup "__radd__" tape_methods); [|discriminate].
-          destruct (rr_meth2 "__radd__" x x' (RNum a) (RNum a) q S1 eq_refl H) as [q' [E [S D]]].
-          exists q'. split; [exact E|]. split; [exact S|]. intros. apply D; [apply D1; assumption | exact I].
+      + cbn [rec_infix] in H |- *.
+        destruct (rr_meth2 (rdunder o) (RRec ks2 t2) (RRec ks2' t2') (RNum a) (RNum a) q Hr2 eq_refl H) as [q' [E [S D]]].
+        exists q'. split; [exact E|]. split; [exact S|]. intros. apply D; [assumption | exact I].
     - exact (rr_meth2 (dunder o) (RRec ks1 t1) (RRec ks1' t1') r2 r2' q Hr1 Hr2 H).
   Qed.
 
@@ -1394,3 +1425,269 @@ Section Abstract.
     - split; [intros m Hm; discriminate|]. intros Hs. congruence.
   Qed.
 End Abstract.
+
+(* ================= 2. the table of generated functions of Model/Tape.v ================= *)
+
+Lemma Uth : ring_theory tt tt (fun _ _ : unit => tt) (fun _ _ => tt) (fun _ _ => tt) (fun _ => tt) (@eq unit).
+Proof. constructor; intros; repeat match goal with x : unit |- _ => destruct x end; reflexivity. Qed.
+
+Lemma unit_mv_eq (x y : mv unit) : keys x = keys y -> x = y.
+Proof.
+  revert y. induction x as [|[k []] x IH]; intros [|[k' []] y] H; cbn in H; try discriminate; [reflexivity|].
+  inversion H; subst. f_equal. apply IH. assumption.
+Qed.
+Lemma keys_ksym ks : keys (ksym ks) = ks.
+Proof. unfold keys, ksym. rewrite map_map. cbn. apply map_id. Qed.
+Lemma ksym_perm ks ks' : Permutation ks ks' -> Permutation (ksym ks) (ksym ks').
+Proof. apply Permutation_map. Qed.
+Lemma zin_ext k l l' : (In k l <-> In k l') -> zin k l = zin k l'.
+Proof.
+  intros H. destruct (zin k l) eqn:E1, (zin k l') eqn:E2; try reflexivity.
+  - apply zin_true_iff in E1. apply H in E1. apply zin_true_iff in E1. congruence.
+  - apply zin_true_iff in E2. apply H in E2. apply zin_true_iff in E2. congruence.
+Qed.
+(* two re-sorted dictionaries with the same stored key set have the same key tuple *)
+Lemma keys_canon_sort_ext {T} A (d d' : mv T) : (forall k, In k (canon_keys A) -> (In k (keys d) <-> In k (keys d'))) ->
+  keys (canon_sort A d) = keys (canon_sort A d').
+Proof.
+  intros H. rewrite !keys_canon_sort. apply filter_ext_in. intros k Hk. apply zin_ext. apply H. exact Hk.
+Qed.
+
+Section Concrete.
+  Variable R : Type.
+  Variables (rO rI : R) (radd rmul rsub : R -> R -> R) (ropp : R -> R).
+  Hypothesis Rth : ring_theory rO rI radd rmul rsub ropp (@eq R).
+  Add Ring ConcreteRing : Rth.
+  Local Notation O := (mkOps R radd rsub rmul ropp rO rI).
+  Local Notation "x == y" := (Sparse.equiv rO rI radd rmul rsub ropp x y) (at level 70, no associativity).
+  Variable A : alg.
+  Hypothesis Hwf : wf_alg A = true.
+  Let SH : sign_hyps A := wf_sign_hyps A Hwf.
+  Let Hnd : NoDup (canon_keys A) := sh_nodup A SH.
+
+  Lemma unit_hom : ops_hom O Uops (fun _ : R => tt).
+  Proof. constructor; reflexivity. Qed.
+  Lemma map_tt (x : mv R) : map_mv (fun _ : R => tt) x = ksym (keys x).
+  Proof. unfold map_mv, ksym, keys. rewrite map_map. reflexivity. Qed.
+
+  (* equal key tuples + equal coefficients = equal multivectors *)
+  Lemma eq_of_equiv (m m' : mv R) : keys m = keys m' -> NoDup (keys m) -> m == m' -> m = m'.
+  Proof.
+    revert m'. induction m as [|[k v] m IH]; intros [|[k' v'] m'] Hk Hn He; cbn in Hk; try discriminate; [reflexivity|].
+    injection Hk as Ek Ekeys. subst k'. inversion Hn as [|? ? Hni Hnd']; subst.
+    assert (v = v').
+    { specialize (He k). cbn in He. rewrite Z.eqb_refl in He. exact He. }
+    subst v'. f_equal. apply IH; [assumption | assumption |].
+    intros K. specialize (He K). cbn in He. destruct (Z.eqb_spec k K) as [E|E]; [|exact He].
+    subst K. rewrite !(coeff_notin R rO rI radd rmul rsub ropp); [reflexivity | | exact Hni].
+    unfold keys. rewrite <- Ekeys. exact Hni.
+  Qed.
+
+  (* --- what is needed of a polynomial operator --- *)
+  Record good2 (f : op2) : Prop := mkGood2 {
+    g2_nat : natural2 f;
+    g2_congr : forall x x' y y', NoDup (keys x) -> NoDup (keys x') -> NoDup (keys y) -> NoDup (keys y') ->
+                 x == x' -> y == y' -> f R O A x y == f R O A x' y';
+    g2_wf : forall T (OT : ops T) x y, NoDup (keys (f T OT A x y)) /\ incl (keys (f T OT A x y)) (canon_keys A);
+    g2_perm : forall X X' Y Y' : mv unit, NoDup (keys X) -> NoDup (keys Y) -> Permutation X X' -> Permutation Y Y' ->
+                 f unit Uops A X Y = f unit Uops A X' Y';
+  }.
+  Record good1 (f : op1) : Prop := mkGood1 {
+    g1_nat : natural1 f;
+    g1_congr : forall x x', NoDup (keys x) -> NoDup (keys x') -> x == x' -> f R O A x == f R O A x';
+    g1_wf : forall T (OT : ops T) x, NoDup (keys (f T OT A x)) /\ incl (keys (f T OT A x)) (canon_keys A);
+    g1_perm : forall X X' : mv unit, NoDup (keys X) -> Permutation X X' -> f unit Uops A X = f unit Uops A X';
+  }.
+
+  Lemma sorted_wf {T} (d : mv T) : NoDup (keys (canon_sort A d)) /\ incl (keys (canon_sort A d)) (canon_keys A).
+  Proof. split; [apply NoDup_keys_canon_sort; exact Hnd | apply keys_canon_sort_incl]. Qed.
+
+  (* the product family *)
+  Lemma good_product (sf : alg -> Z -> Z -> Z) (fl : alg -> option (Z -> Z -> Z -> bool)) (ko : alg -> Z -> Z -> Z) :
+    good2 (fun T OT A0 x y => canon_sort A0 (codegen_product OT (sf A0) (fl A0) (ko A0) x y)).
+  Proof.
+    constructor.
+    - intros T1 T2 O1 O2 g Hg A0 x y. rewrite nat_canon_sort. f_equal.
+      exact (natural_codegen_product (sf A0) (fl A0) (ko A0) T1 T2 O1 O2 g Hg A0 x y).
+    - intros. apply (sorted_product_congr R rO rI radd rmul rsub ropp Rth); assumption.
+    - intros. apply sorted_wf.
+    - intros X X' Y Y' _ _ HX HY. apply unit_mv_eq. apply keys_canon_sort_ext. intros k _.
+      rewrite !(product_keys unit tt tt (fun _ _ => tt) (fun _ _ => tt) (fun _ _ => tt) (fun _ => tt)).
+      split; intros [kx [vx [ky [vy [H1 [H2 H3]]]]]]; exists kx, vx, ky, vy; (split; [|split; [|exact H3]]).
+      + eapply Permutation_in; [exact HX | exact H1].
+      + eapply Permutation_in; [exact HY | exact H2].
+      + eapply Permutation_in; [apply Permutation_sym; exact HX | exact H1].
+      + eapply Permutation_in; [apply Permutation_sym; exact HY | exact H2].
+  Qed.
+
+  Lemma in_union k l1 l2 : In k (l1 ++ filter (fun k0 => negb (zin k0 l1)) l2) <-> In k l1 \/ In k l2.
+  Proof.
+    rewrite in_app_iff, filter_In, negb_true_iff, zin_false_iff. split; [tauto|].
+    intros [H|H]; [tauto|]. destruct (in_dec Z.eq_dec k l1); tauto.
+  Qed.
+  Lemma perm_in_iff {X} (l l' : list X) a : Permutation l l' -> (In a l <-> In a l').
+  Proof. intros H. split; apply Permutation_in; [exact H | apply Permutation_sym; exact H]. Qed.
+  Lemma NoDup_keys_perm {T} (X X' : mv T) : NoDup (keys X) -> Permutation X X' -> NoDup (keys X').
+  Proof. intros H Hp. eapply Permutation_NoDup; [apply perm_keys; exact Hp | exact H]. Qed.
+
+  Lemma good_add : good2 (@add).
+  Proof.
+    constructor.
+    - exact natural_add.
+    - intros. apply (add_congr R rO rI radd rmul rsub ropp Rth); assumption.
+    - intros. apply sorted_wf.
+    - intros X X' Y Y' HnX HnY HX HY. apply unit_mv_eq. apply keys_canon_sort_ext. intros k _.
+      pose proof (NoDup_keys_perm X X' HnX HX) as HnX'. pose proof (NoDup_keys_perm Y Y' HnY HY) as HnY'.
+      rewrite !(keys_raw_add unit tt tt (fun _ _ => tt) (fun _ _ => tt) (fun _ _ => tt) (fun _ => tt));
+        try assumption.
+      rewrite !in_union. rewrite (perm_in_iff _ _ k (perm_keys _ _ HX)), (perm_in_iff _ _ k (perm_keys _ _ HY)). reflexivity.
+  Qed.
+  Lemma good_sub : good2 (@sub).
+  Proof.
+    constructor.
+    - exact natural_sub.
+    - intros. apply (sub_congr R rO rI radd rmul rsub ropp Rth); assumption.
+    - intros. apply sorted_wf.
+    - intros X X' Y Y' HnX HnY HX HY. apply unit_mv_eq. apply keys_canon_sort_ext. intros k _.
+      pose proof (NoDup_keys_perm X X' HnX HX) as HnX'. pose proof (NoDup_keys_perm Y Y' HnY HY) as HnY'.
+      rewrite !(keys_raw_sub unit tt tt (fun _ _ => tt) (fun _ _ => tt) (fun _ _ => tt) (fun _ => tt));
+        try assumption.
+      rewrite !in_union. rewrite (perm_in_iff _ _ k (perm_keys _ _ HX)), (perm_in_iff _ _ k (perm_keys _ _ HY)). reflexivity.
+  Qed.
+  Lemma good_neg : good1 (@neg).
+  Proof.
+    constructor.
+    - exact natural_neg.
+    - intros. apply (neg_congr R rO rI radd rmul rsub ropp Rth); assumption.
+    - intros. apply sorted_wf.
+    - intros X X' HnX HX. apply unit_mv_eq. apply keys_canon_sort_ext. intros k _.
+      pose proof (NoDup_keys_perm X X' HnX HX) as HnX'.
+      rewrite !(keys_raw_neg unit tt tt (fun _ _ => tt) (fun _ _ => tt) (fun _ _ => tt) (fun _ => tt));
+        try assumption.
+      apply perm_in_iff, perm_keys, HX.
+  Qed.
+  Lemma good_involution g (f : op1) :
+    (forall T OT A0 x, f T OT A0 x = canon_sort A0 (raw_involution OT g x)) -> natural1 f ->
+    (forall x x', NoDup (keys x) -> NoDup (keys x') -> x == x' -> f R O A x == f R O A x') -> good1 f.
+  Proof.
+    intros Hf Hn Hc. constructor; [exact Hn | exact Hc | intros; rewrite Hf; apply sorted_wf |].
+    intros X X' HnX HX. rewrite !Hf. apply unit_mv_eq. apply keys_canon_sort_ext. intros k _.
+    pose proof (NoDup_keys_perm X X' HnX HX) as HnX'.
+    rewrite !(keys_raw_involution unit tt tt (fun _ _ => tt) (fun _ _ => tt) (fun _ _ => tt) (fun _ => tt));
+      try assumption.
+    apply perm_in_iff, perm_keys, HX.
+  Qed.
+  Lemma good_reverse : good1 (@reverse).
+  Proof. apply (good_involution grades_reverse); [reflexivity | exact natural_reverse |].
+    intros. apply (reverse_congr R rO rI radd rmul rsub ropp Rth); assumption. Qed.
+  Lemma good_involute : good1 (@involute).
+  Proof. apply (good_involution grades_involute); [reflexivity | exact natural_involute |].
+    intros. apply (involute_congr R rO rI radd rmul rsub ropp Rth); assumption. Qed.
+  Lemma good_conjugate : good1 (@conjugate).
+  Proof. apply (good_involution grades_conjugate); [reflexivity | exact natural_conjugate |].
+    intros. apply (conjugate_congr R rO rI radd rmul rsub ropp Rth); assumption. Qed.
+  Lemma good_hodge : good1 (@hodge).
+  Proof.
+    constructor.
+    - exact natural_hodge.
+    - intros. apply (hodge_congr R rO rI radd rmul rsub ropp Rth); assumption.
+    - intros. apply sorted_wf.
+    - intros X X' HnX HX. apply unit_mv_eq. apply keys_canon_sort_ext. intros k _.
+      pose proof (NoDup_keys_perm X X' HnX HX) as HnX'.
+      rewrite !(keys_raw_hodge unit tt tt (fun _ _ => tt) (fun _ _ => tt) (fun _ _ => tt) (fun _ => tt));
+        try assumption.
+      apply perm_in_iff, Permutation_map, perm_keys, HX.
+  Qed.
+  Lemma good_unhodge : good1 (@unhodge).
+  Proof.
+    constructor.
+    - exact natural_unhodge.
+    - intros. apply (unhodge_congr R rO rI radd rmul rsub ropp Rth); assumption.
+    - intros. apply sorted_wf.
+    - intros X X' HnX HX. apply unit_mv_eq. apply keys_canon_sort_ext. intros k _.
+      pose proof (NoDup_keys_perm X X' HnX HX) as HnX'.
+      rewrite !(keys_raw_unhodge unit tt tt (fun _ _ => tt) (fun _ _ => tt) (fun _ _ => tt) (fun _ => tt));
+        try assumption.
+      apply perm_in_iff, Permutation_map, perm_keys, HX.
+  Qed.
+
+  Lemma good_gp : good2 (@gp).
+  Proof. exact (good_product (fun A0 => sgn A0) (fun _ => None) (fun _ => Z.lxor)). Qed.
+  Lemma good_op : good2 (@op).
+  Proof. exact (good_product (fun A0 => sgn A0) (fun _ => Some filter_op) (fun _ => Z.lxor)). Qed.
+  Lemma good_ip : good2 (@ip).
+  Proof. exact (good_product (fun A0 => sgn A0) (fun _ => Some filter_ip) (fun _ => Z.lxor)). Qed.
+  Lemma good_lc : good2 (@lc).
+  Proof. exact (good_product (fun A0 => sgn A0) (fun _ => Some filter_lc) (fun _ => Z.lxor)). Qed.
+  Lemma good_rc : good2 (@rc).
+  Proof. exact (good_product (fun A0 => sgn A0) (fun _ => Some filter_rc) (fun _ => Z.lxor)). Qed.
+  Lemma good_sp : good2 (@sp).
+  Proof. exact (good_product (fun A0 => sgn A0) (fun _ => Some filter_sp) (fun _ => Z.lxor)). Qed.
+  Lemma good_cp : good2 (@cp).
+  Proof. exact (good_product (fun A0 => sgn A0) (fun A0 => Some (filter_cp (sgn A0))) (fun _ => Z.lxor)). Qed.
+  Lemma good_acp : good2 (@acp).
+  Proof. exact (good_product (fun A0 => sgn A0) (fun A0 => Some (filter_acp (sgn A0))) (fun _ => Z.lxor)). Qed.
+  Lemma good_rp : good2 (@rp).
+  Proof. exact (good_product (fun A0 => sign_rp (sgn A0) (alg_len A0)) (fun A0 => Some (filter_rp (alg_len A0)))
+                             (fun A0 => keyout_rp (alg_len A0))). Qed.
+
+  (* compositions *)
+  Lemma equiv_refl' (x : mv R) : x == x. Proof. intros K. reflexivity. Qed.
+  Lemma good_comp_l (f g : op2) (h : op1) : good2 f -> good2 g -> good1 h ->
+    good2 (fun T OT A0 x y => f T OT A0 (g T OT A0 x y) (h T OT A0 x)).
+  Proof.
+    intros Gf Gg Gh. constructor.
+    - intros T1 T2 O1 O2 m Hm A0 x y. rewrite (g2_nat f Gf T1 T2 O1 O2 m Hm), (g2_nat g Gg T1 T2 O1 O2 m Hm), (g1_nat h Gh T1 T2 O1 O2 m Hm). reflexivity.
+    - intros x x' y y' Hx Hx' Hy Hy' Ex Ey. apply (g2_congr f Gf);
+        try apply (g2_wf g Gg); try apply (g1_wf h Gh); [apply (g2_congr g Gg) | apply (g1_congr h Gh)]; assumption.
+    - intros. apply (g2_wf f Gf).
+    - intros X X' Y Y' HnX HnY HX HY. rewrite (g2_perm g Gg X X' Y Y' HnX HnY HX HY), (g1_perm h Gh X X' HnX HX). reflexivity.
+  Qed.
+  Lemma good_comp_r (f g : op2) (h : op1) : good2 f -> good2 g -> good1 h ->
+    good2 (fun T OT A0 x y => f T OT A0 (g T OT A0 x y) (h T OT A0 y)).
+  Proof.
+    intros Gf Gg Gh. constructor.
+    - intros T1 T2 O1 O2 m Hm A0 x y. rewrite (g2_nat f Gf T1 T2 O1 O2 m Hm), (g2_nat g Gg T1 T2 O1 O2 m Hm), (g1_nat h Gh T1 T2 O1 O2 m Hm). reflexivity.
+    - intros x x' y y' Hx Hx' Hy Hy' Ex Ey. apply (g2_congr f Gf);
+        try apply (g2_wf g Gg); try apply (g1_wf h Gh); [apply (g2_congr g Gg) | apply (g1_congr h Gh)]; assumption.
+    - intros. apply (g2_wf f Gf).
+    - intros X X' Y Y' HnX HnY HX HY. rewrite (g2_perm g Gg X X' Y Y' HnX HnY HX HY), (g1_perm h Gh Y Y' HnY HY). reflexivity.
+  Qed.
+  Lemma good_sw : good2 (@sw).
+  Proof. exact (good_comp_l (@gp) (@gp) (@reverse) good_gp good_gp good_reverse). Qed.
+  Lemma good_proj : good2 (@proj).
+  Proof. exact (good_comp_r (@gp) (@ip) (@reverse) good_gp good_ip good_reverse). Qed.
+  Lemma good_normsq : good1 (@normsq).
+  Proof.
+    constructor.
+    - exact natural_normsq.
+    - intros x x' Hx Hx' Ex. apply (g2_congr _ good_gp); try assumption; try apply (g1_wf _ good_reverse).
+      apply (g1_congr _ good_reverse); assumption.
+    - intros. apply (g2_wf _ good_gp).
+    - intros X X' HnX HX. change (gp Uops A X (reverse Uops A X) = gp Uops A X' (reverse Uops A X')).
+      rewrite (g1_perm _ good_reverse X X' HnX HX). apply (g2_perm _ good_gp); try assumption; [apply (g1_wf _ good_reverse) | apply Permutation_refl].
+  Qed.
+  Lemma good_unpolarity : good1 (@unpolarity).
+  Proof.
+    constructor.
+    - exact natural_unpolarity.
+    - intros x x' Hx Hx' Ex. apply (g2_congr _ good_gp); try assumption; try (cbn; repeat constructor; intros []); try apply equiv_refl'.
+    - intros. apply (g2_wf _ good_gp).
+    - intros X X' HnX HX. apply (g2_perm _ good_gp); try assumption; [cbn; repeat constructor; intros [] | apply Permutation_refl].
+  Qed.
+
+  Lemma poly2_good op f : sassoc op poly2_table = Some f -> good2 f.
+  Proof.
+    unfold poly2_table. cbn [sassoc]. intros H.
+    repeat match type of H with (if ?c then _ else _) = _ => destruct c; [inversion H; subst f; clear H|] end; try discriminate;
+      first [exact good_gp | exact good_op | exact good_ip | exact good_lc | exact good_rc | exact good_sp | exact good_cp
+            | exact good_acp | exact good_rp | exact good_add | exact good_sub | exact good_sw | exact good_proj].
+  Qed.
+  Lemma poly1_good op f : sassoc op poly1_table = Some f -> good1 f.
+  Proof.
+    unfold poly1_table. cbn [sassoc]. intros H.
+    repeat match type of H with (if ?c then _ else _) = _ => destruct c; [inversion H; subst f; clear H|] end; try discriminate;
+      first [exact good_neg | exact good_reverse | exact good_involute | exact good_conjugate | exact good_hodge | exact good_unhodge
+            | exact good_unpolarity | exact good_normsq].
+  Qed.
+End Concrete.
